@@ -453,6 +453,137 @@ fn expr_attrs(e: &Expr) -> Vec<syn::Attribute> {
     }
 }
 
+
+/// `RECV.last_mut().unwrap()` -> Some(RECV)
+fn last_mut_unwrap_recv(e: &Expr) -> Option<Expr> {
+    if let Expr::MethodCall(u) = e {
+        if u.method == "unwrap" && u.args.is_empty() {
+            if let Expr::MethodCall(l) = &*u.receiver {
+                if l.method == "last_mut" && l.args.is_empty() {
+                    return Some((*l.receiver).clone());
+                }
+            }
+        }
+    }
+    None
+}
+
+fn is_marker_stmt(s: &Stmt) -> bool {
+    if let Stmt::Macro(m) = s {
+        return m.mac.path.is_ident("vx_at") || m.mac.path.is_ident("vx_loop") || m.mac.path.is_ident("vx_contract");
+    }
+    false
+}
+
+fn mentions_word(s: &Stmt, name: &str) -> bool {
+    if is_marker_stmt(s) {
+        return false;
+    }
+    let txt = s.to_token_stream().to_string();
+    txt.split(|c: char| !(c.is_alphanumeric() || c == '_')).any(|w| w == name)
+}
+
+/// a bare `ID` passed as a call argument (it was a `&mut T`, now a `T` value) becomes `&ID`
+struct ArgRef(String);
+impl VisitMut for ArgRef {
+    fn visit_expr_mut(&mut self, e: &mut Expr) {
+        visit_mut::visit_expr_mut(self, e);
+        let fix = |args: &mut syn::punctuated::Punctuated<Expr, syn::token::Comma>, name: &str| {
+            for a in args.iter_mut() {
+                if let Expr::Path(p) = a {
+                    if p.path.is_ident(name) {
+                        let id = p.clone();
+                        *a = parse_quote!(&#id);
+                    }
+                }
+            }
+        };
+        match e {
+            Expr::Call(c) => fix(&mut c.args, &self.0),
+            Expr::MethodCall(m) => fix(&mut m.args, &self.0),
+            _ => {}
+        }
+    }
+}
+
+impl<'a> Rw<'a> {
+    /// R-LASTMUT: Verus has no `&mut`-returning calls. `let p = V.last_mut().unwrap(); ..uses of p..` becomes a copy of
+    /// the last element, the same statements, and a write-back `V.set(V.len() - 1, p)` after the last use (V must not be
+    /// mentioned in between; the element type must be Copy, otherwise the result does not type-check -> undecided).
+    /// `V.last_mut().unwrap().f = e;` becomes `{ let __v = e; let __k = V.len() - 1; let mut __t = V[__k]; __t.f = __v; V.set(__k, __t); }`.
+    /// An empty V panics in the original (unwrap on None) and underflows `len() - 1` here: both are safety failures.
+    fn last_mut_pass(&mut self, stmts: Vec<Stmt>) -> Vec<Stmt> {
+        let mut out: Vec<Stmt> = Vec::with_capacity(stmts.len());
+        let mut i = 0;
+        let n = stmts.len();
+        let mut pending: Vec<(usize, Stmt)> = vec![]; // (insert after original index, stmt)
+        let mut stmts = stmts;
+        while i < n {
+            // pattern B
+            let mut replaced: Option<Stmt> = None;
+            if let Stmt::Expr(Expr::Assign(a), Some(_)) = &stmts[i] {
+                if let Expr::Field(f) = &*a.left {
+                    if let Some(recv) = last_mut_unwrap_recv(&f.base) {
+                        let member = &f.member;
+                        let val = &a.right;
+                        self.fire("R-LASTMUT.assign");
+                        replaced = Some(parse_quote!({
+                            let __v = #val;
+                            let __k = #recv.len() - 1;
+                            let mut __t = #recv[__k];
+                            __t.#member = __v;
+                            #recv.set(__k, __t);
+                        }));
+                    }
+                }
+            }
+            if let Some(r) = replaced {
+                stmts[i] = r;
+                i += 1;
+                continue;
+            }
+            // pattern A
+            let mut pat_a: Option<(syn::Ident, Expr)> = None;
+            if let Stmt::Local(l) = &stmts[i] {
+                if let (syn::Pat::Ident(pi), Some(init)) = (&l.pat, &l.init) {
+                    if let Some(recv) = last_mut_unwrap_recv(&init.expr) {
+                        pat_a = Some((pi.ident.clone(), recv));
+                    }
+                }
+            }
+            if let Some((id, recv)) = pat_a {
+                let name = id.to_string();
+                let mut last = i;
+                for j in i + 1..n {
+                    if mentions_word(&stmts[j], &name) {
+                        last = j;
+                    }
+                }
+                let recv_txt = ts_str(&recv);
+                for j in i + 1..=last {
+                    if !is_marker_stmt(&stmts[j]) && ts_str(&stmts[j]).contains(&recv_txt) {
+                        self.err(format!("R-LASTMUT: `{}` is used while `{}` borrows its last element", recv_txt, name));
+                    }
+                    ArgRef(name.clone()).visit_stmt_mut(&mut stmts[j]);
+                }
+                self.fire("R-LASTMUT.let");
+                stmts[i] = parse_quote!(let mut #id = #recv[#recv.len() - 1];);
+                pending.push((last, parse_quote!(#recv.set(#recv.len() - 1, #id);)));
+            }
+            i += 1;
+        }
+        for (k, s) in stmts.into_iter().enumerate() {
+            out.push(s);
+            for (after, ins) in pending.iter() {
+                if *after == k {
+                    out.push(ins.clone());
+                }
+            }
+        }
+        out
+    }
+}
+
 impl<'a> VisitMut for Rw<'a> {
     fn visit_type_mut(&mut self, t: &mut syn::Type) {
         visit_mut::visit_type_mut(self, t);
@@ -533,6 +664,7 @@ impl<'a> VisitMut for Rw<'a> {
     fn visit_block_mut(&mut self, b: &mut syn::Block) {
         // statement-level rewriting: drop logging stmts, expand statement macros
         let old = std::mem::take(&mut b.stmts);
+        let old = self.last_mut_pass(old);
         let mut out: Vec<Stmt> = Vec::with_capacity(old.len());
         for mut s in old.into_iter() {
             if has_logging_cfg(&stmt_attrs(&s)) {
@@ -618,6 +750,40 @@ impl<'a> VisitMut for Rw<'a> {
     }
 
     fn visit_expr_mut(&mut self, e: &mut Expr) {
+        // R-STD.usize_max: `<expr>.len().max(k)` is Ord::max on usize (Verus cannot specify provided trait methods):
+        // replaced by the free function usize_max(a, b) whose (verified) body is `if a >= b { a } else { b }`
+        if let Expr::MethodCall(mc) = e {
+            if mc.method == "max" && mc.args.len() == 1 {
+                if let Expr::MethodCall(inner) = &*mc.receiver {
+                    if inner.method == "len" && inner.args.is_empty() {
+                        let a = (*mc.receiver).clone();
+                        let b = mc.args[0].clone();
+                        self.fire("R-STD.usize_max");
+                        *e = parse_quote!(usize_max(#a, #b));
+                    }
+                }
+            }
+        }
+        // struct literals: a field dropped from the struct (R-TY.drop_field) is dropped from its literals too
+        if let Expr::Struct(st) = e {
+            if let Some(list) = self.opts.extra.get("drop_literal_fields") {
+                let names: Vec<String> = list.split(',').map(|x| x.trim().to_string()).collect();
+                let before = st.fields.len();
+                let kept: syn::punctuated::Punctuated<syn::FieldValue, syn::token::Comma> = st
+                    .fields
+                    .iter()
+                    .filter(|f| match &f.member {
+                        syn::Member::Named(id) => !names.contains(&id.to_string()),
+                        _ => true,
+                    })
+                    .cloned()
+                    .collect();
+                if kept.len() != before {
+                    st.fields = kept;
+                    self.fire("R-TY.drop_field.literal");
+                }
+            }
+        }
         // iterator idioms are recognised top-down before children are rewritten
         if !self.opts.no_iter {
             if let Some(mut ne) = iter::desugar(self, e) {
@@ -801,7 +967,7 @@ impl<'a> VisitMut for Rw<'a> {
                     let l = &b.left;
                     let r = &b.right;
                     self.fire("R-OPASSIGN");
-                    if matches!(op, Add(_)) && self.opts.extra.contains_key("usize_add_diverges") && matches!(strip_paren_expr(r), Expr::Lit(x) if matches!(x.lit, syn::Lit::Int(_))) {
+                    if matches!(op, Add(_)) && (self.opts.extra.get("usize_add_diverges").map(|v| v == "all").unwrap_or(false) || (self.opts.extra.contains_key("usize_add_diverges") && matches!(strip_paren_expr(r), Expr::Lit(x) if matches!(x.lit, syn::Lit::Int(_))))) {
                         self.fire("R-ADD.diverge");
                         replacement = Some(parse_quote!(#l = add_or_panic(#l, #r)));
                     } else {
